@@ -26,7 +26,8 @@ def band_of(g):
     return 0 if g <= 10 else (1 if g <= 18 else 2)
 
 
-def replay_one(col, b, root, seed, bi):
+def replay_one(col, bs, root, seed, bi):
+    b = bs[0]
     from astropy import units as u
     from sedfitter import fit, write_parameters
     from sedfitter.convolve import convolve_model_dir
@@ -62,44 +63,62 @@ def replay_one(col, b, root, seed, bi):
             convolve_model_dir(d, filts)
         wavs = [12.0 / 6.0, 12.0 / 14.0, 12.0 / 22.0]
         law = fw.make_extinction(K, wavs)
-        s = fw.make_source(b['src'], name='planted')
         data = os.path.join(d, 'data.txt')
         with open(data, 'w') as fh:
-            cols = [s.name, '0.0', '0.0'] + [str(int(v)) for v in s.valid]
-            for a_, e_ in zip(s.flux, s.error):
-                cols += [repr(float(a_)), repr(float(e_))]
-            fh.write(' '.join(cols) + '\n')
+            for si, bb in enumerate(bs):          # several planted sources go through ONE fit() run
+                s = fw.make_source(bb['src'], name='planted_%d' % si)
+                cols = [s.name, '0.0', '0.0'] + [str(int(v)) for v in s.valid]
+                for a_, e_ in zip(s.flux, s.error):
+                    cols += [repr(float(a_)), repr(float(e_))]
+                fh.write(' '.join(cols) + '\n')
         out = os.path.join(d, 'out.fitinfo')
         with fw.quiet():
             fit(data, ['b0', 'b1', 'b2'], np.array([1.0, 1.0, 1.0]) * u.arcsec, d, out, n_data_min=3, extinction_law=law,
                 av_range=(0.0, 10.0), distance_range=np.array([1.0, 100.0]) * u.kpc, output_format=('N', 3), output_convolved=bool(bi % 2))
             txt = os.path.join(d, 'pars.txt')
             write_parameters(out, txt, select_format=('N', 1))
-        col.replayed += 1
-        rec = next(iter(FitInfoFile(out, 'r')))
-        row = open(txt).read().splitlines()[4].split()
-        want_name = NAMES[cfg['mp'] - 1]
-        want_av = cfg['pl'][0] / 4.0
-        want_sc = cfg['pl'][1] / 40.0 if mode == 'indep' else float(cfg['i0'] - 1)
-        # the planted model's own row, wherever it is ranked
-        names_rec = [str(x).strip() for x in rec.model_name]
-        k = names_rec.index(want_name) if want_name in names_rec else -1
-        bad = None
-        if k < 0:
-            bad = 'the planted model %s is not among the fits %r' % (want_name, names_rec)
-        elif abs(rec.chi2[k]) > 1e-6 or abs(rec.av[k] - want_av) > 1e-5 or abs(rec.sc[k] - want_sc) > 1e-5:
-            bad = 'planted %s at A_V %g, scale %g: fitted chi2 %r, A_V %r, scale %r' % (want_name, want_av, want_sc, rec.chi2[k], rec.av[k], rec.sc[k])
-        elif b['nondeg']:
-            if names_rec[0] != want_name:
-                bad = 'planted %s is ranked %d, first is %s with chi2 %r' % (want_name, k + 1, names_rec[0], rec.chi2[0])
-            elif row[1] != want_name or abs(float(row[2])) > 1e-3 or abs(float(row[3]) - want_av) > 1e-3 or abs(float(row[4]) - want_sc) > 1e-3:
-                bad = 'write_parameters first row %r, planted %s A_V %g scale %g' % (row, want_name, want_av, want_sc)
-            elif abs(float(row[5]) - pars[0][want_name]) > 1e-3 * pars[0][want_name] or abs(float(row[6]) - pars[1][want_name]) > 1e-3 * pars[1][want_name]:
-                bad = 'write_parameters prints parameters %r next to %s; its row of the parameter file is %r' % (row[5:], want_name, (pars[0][want_name], pars[1][want_name]))
-            elif len(rec.chi2) > 1 and not rec.chi2[1] > 1e-9:
-                bad = 'a second model also fits exactly although the grid is non-degenerate'
-        if bad:
-            col.violation('C08:%s:%s' % (mode, fmt), '%s package, %s mode, table order %r: %s' % (fmt, mode, names, bad), desc)
+        recs = list(FitInfoFile(out, 'r'))
+        lines = open(txt).read().splitlines()[3:]
+        blocks = {}
+        cur = None
+        for ln in lines:
+            tk = ln.split()
+            if len(tk) == 3 and tk[0].startswith('planted_'):
+                cur = tk[0]
+                blocks[cur] = []
+            elif tk and cur:
+                blocks[cur].append(tk)
+        for si, bb in enumerate(bs):
+            col.replayed += 1
+            cfg = bb['cfg']
+            want_name = NAMES[cfg['mp'] - 1]
+            want_av = cfg['pl'][0] / 4.0
+            want_sc = cfg['pl'][1] / 40.0 if mode == 'indep' else float(cfg['i0'] - 1)
+            bad = None
+            if si >= len(recs) or recs[si].source.name != 'planted_%d' % si:
+                bad = 'no record for source %d' % si
+            else:
+                rec = recs[si]
+                row = (blocks.get('planted_%d' % si) or [[]])[0]
+                names_rec = [str(x).strip() for x in rec.model_name]
+                k = names_rec.index(want_name) if want_name in names_rec else -1
+                if k < 0:
+                    bad = 'the planted model %s is not among the fits %r' % (want_name, names_rec)
+                elif abs(rec.chi2[k]) > 1e-6 or abs(rec.av[k] - want_av) > 1e-5 or abs(rec.sc[k] - want_sc) > 1e-5:
+                    bad = 'planted %s at A_V %g, scale %g: fitted chi2 %r, A_V %r, scale %r' % (want_name, want_av, want_sc, rec.chi2[k], rec.av[k], rec.sc[k])
+                elif bb['nondeg']:
+                    if names_rec[0] != want_name:
+                        bad = 'planted %s is ranked %d, first is %s with chi2 %r' % (want_name, k + 1, names_rec[0], rec.chi2[0])
+                    elif len(row) < 7 or row[1] != want_name or abs(float(row[2])) > 1e-3 or abs(float(row[3]) - want_av) > 1e-3 or abs(float(row[4]) - want_sc) > 1e-3:
+                        bad = 'write_parameters first row %r, planted %s A_V %g scale %g' % (row, want_name, want_av, want_sc)
+                    elif abs(float(row[5]) - pars[0][want_name]) > 1e-3 * pars[0][want_name] or abs(float(row[6]) - pars[1][want_name]) > 1e-3 * pars[1][want_name]:
+                        bad = 'write_parameters prints parameters %r next to %s; its row of the parameter file is %r' % (row[5:], want_name, (pars[0][want_name], pars[1][want_name]))
+                    elif len(rec.chi2) > 1 and not rec.chi2[1] > 1e-9:
+                        bad = 'a second model also fits exactly although the grid is non-degenerate'
+            if bad:
+                col.violation('C08:%s:%s' % (mode, fmt), '%s package, %s mode, table order %r, source %d of %d in the run: %s' % (fmt, mode, names, si + 1, len(bs), bad),
+                              dict(desc, cfg=cfg, src=bb['src'], all_sources=[x['cfg'] for x in bs]))
+                break
     except Exception as e:
         col.violation('C08:raised:%s:%s:%s' % (mode, fmt, type(e).__name__), 'pipeline raised %r' % (e,), desc)
     finally:
@@ -130,12 +149,25 @@ def run(ctx):
     ctx.sample({'behaviour': chosen[0]})
     root = ctx.mkdtemp('plant')
 
+    groups = {}
+    for b in chosen:
+        groups.setdefault((b['cfg']['g'], b['cfg']['k'], b['cfg']['mode']), []).append(b)
+    runs = []
+    for key in sorted(groups):
+        g_ = groups[key]
+        i = 0
+        while i < len(g_):
+            n_ = 1 + (len(runs) % 3)              # runs of 1, 2 or 3 planted sources
+            runs.append(g_[i:i + n_])
+            i += n_
+
     def chunk(items):
         col = Collector()
-        for bi, b in items:
-            replay_one(col, b, root, ctx.seed, bi)
+        for bi, bs in items:
+            replay_one(col, bs, root, ctx.seed, bi)
         return col
-    for col in pmap(chunk, list(enumerate(chosen))):
+    for col in pmap(chunk, list(enumerate(runs))):
         col.merge_into(ctx)
+    ctx.notes['fit_runs'] = len(runs)
     ctx.assumptions += ['SEDs are constant over each normalised filter\'s support so that convolved fluxes are 10^(E/4); package format, SED storage order, table permutation and filter storage order are drawn per replay',
                         'for a degenerate grid (computed by the spec) only the planted model\'s own row is compared']
